@@ -247,6 +247,17 @@ RefToLower(s) == [i \in 1..Len(s) |-> ToLower(s[i])]
 RefToUpper(s) == [i \in 1..Len(s) |-> UpC(s[i])]
 RefCapitalize(s) == LET W == {i \in 1..Len(s) : WordC(s[i])} IN
                     IF W = {} THEN s ELSE [i \in 1..Len(s) |-> IF i = MinOf(W) THEN UpC(s[i]) ELSE s[i]]
+\* Capitalize on any input, whatever the Unicode tables say: "a copy of the string s with the first non-separator in
+\* upper case" changes at most one code point of s (read as Go reads it) and leaves every other byte in place.
+CapitalizeShape(s, out) ==
+  \/ out = s
+  \/ LET bs == BoundsFrom(s, 1) IN
+     \E k \in 1..Len(bs) :
+        LET st == bs[k][2] w == bs[k][3] tail == Len(s) - (st + w - 1) IN
+        /\ Len(out) > (st - 1) + tail
+        /\ Sub(out, 1, st - 1) = Sub(s, 1, st - 1)
+        /\ Sub(out, Len(out) - tail + 1, Len(out)) = From(s, st + w)
+        /\ RuneCount(Sub(out, st, Len(out) - tail)) = 1
 RefCapitalizeAll(s) == [i \in 1..Len(s) |-> IF i = 1 \/ ~WordC(s[i - 1]) THEN UpC(s[i]) ELSE s[i]]
 (* ToKebab "a copy of the string s in kebab case form": lower-case words joined by single '-'.  Clauses:
    only lower-case letters, digits and '-'; no leading, trailing or doubled '-'; the letters and digits of s, in
@@ -336,14 +347,14 @@ Targets == {"any", "int", "ints", "map", "nil", "nonptr", "nilptr"}
 Nums(a, lo, hi) == [i \in lo..hi |-> BI!ToInt(DecToBig(a[i]))]
 FitsAll(a, lo, hi) == \A i \in lo..hi : IsDec(a[i]) /\ BI!FitsNative(DecToBig(a[i]))
 
-PartlyDecided == {"ToLower", "ToUpper", "Capitalize", "CapitalizeAll", "ToKebab", "ParseInt", "ParseFloat", "ParseDuration",
+PartlyDecided == {"ToLower", "ToUpper", "CapitalizeAll", "ToKebab", "ParseInt", "ParseFloat", "ParseDuration",
                   "ParseTime", "Date", "MarshalJSON", "MarshalYAML", "MarshalJSONIndent", "IndentJSON", "UnmarshalJSON",
                   "UnmarshalYAML", "FormatInt", "FormatFloat", "RegExp", "Regexp.Match", "Regexp.Find", "Regexp.Split",
                   "Reverse", "Sort", "Sprintf"}
 \* Does the reference decide the result (class and value) of this call?  If not, only the panic policy applies
 \* and the record is counted as ref_undefined for its value.
 Decided(fn, a) ==
-  CASE fn \in {"ToLower", "ToUpper", "Capitalize", "CapitalizeAll", "ToKebab"} -> IsAscii(a[1])
+  CASE fn \in {"ToLower", "ToUpper", "CapitalizeAll", "ToKebab"} -> IsAscii(a[1])
     [] fn = "ParseInt" -> a[2] >= 2 /\ a[2] <= 36
     [] fn = "ParseFloat" -> a[1] = <<>> \/ (Len(a[1]) <= 9 /\ AllIn(a[1], 48..57))
     [] fn = "ParseDuration" -> SimpleDuration(a[1]) \/ ~HasDigit(a[1])
@@ -382,7 +393,7 @@ JudgeDecided(fn, a, k, v) ==
     [] fn = "Sha256" -> Val(k, OkHexDigest(v, 32))
     [] fn = "HmacSHA1" -> Val(k, OkB64Digest(v, 20))
     [] fn = "HmacSHA256" -> Val(k, OkB64Digest(v, 32))
-    [] fn = "Capitalize" -> Val(k, v = RefCapitalize(a[1]))
+    [] fn = "Capitalize" -> Val(k, IF IsAscii(a[1]) THEN v = RefCapitalize(a[1]) ELSE CapitalizeShape(a[1], v))
     [] fn = "CapitalizeAll" -> Val(k, v = RefCapitalizeAll(a[1]))
     [] fn = "ToLower" -> Val(k, v = RefToLower(a[1]))
     [] fn = "ToUpper" -> Val(k, v = RefToUpper(a[1]))
